@@ -67,6 +67,10 @@ Fixpoint jv_of (t : jt) : jv :=
   | TObj l => JObj (map (fun kv => (hx (fst kv), jv_of (snd kv))) l)
   end.
 
+Inductive piece := PB (z : Z) | PF (n b : Z).
+Definition stream_of (l : list piece) : bytes :=
+  flat_map (fun p => match p with PB z => hx z | PF n b => repeat b (Z.to_nat n) end) l.
+
 Inductive case :=
 (* b encoded by the reference encoder of the format on the Go side (the real TL writer, msgp appenders, protowire appenders)
    into pkt, pkt parsed by the real parser.parse *)
@@ -75,8 +79,9 @@ Inductive case :=
 | CPkt (limit : Z) (pkt : list Z) (o_fmt : wfmt) (o_ms : list dmetric) (o_end : ending)
 (* a JSON packet: the tree its text lexes to, strconv's verdicts on its number texts *)
 | CJson (tab : numtab) (first : Z) (t : jt) (b : option (list metric)) (o : obs) (o_err : bool)
-(* TCP framing: stream, the body lengths of the frames handed on, framing error *)
-| CFrames (s : list Z) (lens : list Z) (err : bool).
+(* TCP framing: the stream written to the real receive loop (pieces: literal bytes / n copies of a byte), the body
+   lengths of the frames handed on, whether a framing error was accounted *)
+| CFrames (s : list piece) (lens : list Z) (err : bool).
 
 Definition no_lex (_ : bytes) : option jv := None.
 Definition no_num (_ : bool) (_ : bytes) : option Z := None.
@@ -116,7 +121,7 @@ Definition ok (c : case) : bool :=
          | None => true
          end
   | CFrames s lens err =>
-      let bs := hxs s in
+      let bs := stream_of s in
       let '(fs, e) := frames (List.length bs) bs in
       list_eqb Z.eqb (map (fun f => zlen f) fs) lens && Bool.eqb e err
   end.
